@@ -171,3 +171,21 @@ harness!(name=c13_predict_p1_h1, prop=C13, mode=R, kind=normal, tier=quick, unwi
 harness!(name=c13_predict_p1_h3, prop=C13, mode=R, kind=normal, tier=quick, unwind=12, { predict_h::<1, 3>() });
 harness!(name=c13_predict_p2_h2, prop=C13, mode=R, kind=normal, tier=quick, unwind=12, { predict_h::<2, 2>() });
 harness!(name=c13_predict_p3_h3, prop=C13, mode=R, kind=normal, tier=thorough, unwind=12, { predict_h::<3, 3>() });
+
+// @claim c13_dot_: the dot product used by predict_one equals its definition at lengths that reach the unrolled block (order-8 models) (R; same obligation as c04_red_8/9)
+harness!(name=c13_dot_8, prop=C13, mode=R, kind=normal, tier=quick, unwind=24, { crate::c04::red::<8>() });
+harness!(name=c13_dot_9, prop=C13, mode=R, kind=normal, tier=quick, unwind=24, { crate::c04::red::<9>() });
+// @claim c13_refit_: fitting the same AR object a second time gives the coefficients of a fresh fit (no state carried over) (R)
+harness!(name=c13_refit_1, prop=C13, mode=R, kind=normal, tier=thorough, unwind=16, {
+    let x = series::<3>(0);
+    let z = series::<3>(100);
+    vassume!(ref_acov(&x, 0) >= 1.0e-3 && ref_acov(&z, 0) >= 1.0e-3);
+    let mut ar = AR::new(1);
+    ar.fit(&z);
+    ar.fit(&x);
+    let mut fresh = AR::new(1);
+    fresh.fit(&x);
+    vclose!(ar.coeffs[0], fresh.coeffs[0], 1e-9 * (1.0 + fabs(fresh.coeffs[0])), "coefficient after a second fit");
+    vclose!(ar.intercept, fresh.intercept, 1e-9 * (1.0 + fabs(fresh.intercept)), "intercept after a second fit");
+});
+// @cap c13_refit_: 150
